@@ -630,13 +630,24 @@ class Gen:
         rest_e = None
         if rest is not None and npos == len(ps) and not named:
             c = r.random()
-            if c < 0.4:
+            if c < 0.35:
                 for _ in range(r.choice([1, 2, 3])):
                     pos.append(self.expr(sc, "num", d - 1, pure))
                 self.features.add("rest-param")
-            elif c < 0.6:
-                rest_e = self.expr(sc, "list", d - 1, pure)
+            elif c < 0.7:
+                # `f($list...)`: space, comma, bracketed, single-element and empty lists; an
+                # enclosing callable's own `$rest...` is passed on with its keywords
+                if dict(sc.lookup("vars")).get("rest") == "list" and r.random() < 0.4:
+                    rest_e = ("var", "rest")
+                    self.features.add("rest-passed-on")
+                else:
+                    rest_e = self.expr(sc, "list", d - 1, pure)
                 self.features.add("rest-arg")
+        if rest is not None and (ptypes.get("__kw__") and r.random() < 0.6 or r.random() < 0.04):
+            # extra named arguments end up in the argument list's keywords, in source order
+            for nm in r.sample(["kx", "ky", "kz"], r.choice([1, 2, 2, 3])):
+                named.append((nm, self.expr(sc, r.choice(["num", "str", "bool"]), d - 1, pure)))
+            self.features.add("extra-named")
         elif rest is None and ps and npos == len(ps) and not named and r.random() < 0.1 and all(ptypes.get(n) == "num" for n, _ in ps):
             # pass every positional argument through `(a, b, c)...`
             rest_e = ("list", tuple(pos), "c", False)
@@ -686,10 +697,28 @@ class Gen:
             ptypes[name] = ty
             inner.vars[name] = ty
         rest = None
-        if r.random() < 0.2:
+        if r.random() < 0.3:
             rest = "rest"
             inner.vars[rest] = "list"
+            # does the body read the argument list's keywords (then extra named arguments are fine)?
+            ptypes["__kw__"] = r.random() < 0.6
         return (tuple(ps), rest), ptypes, inner
+
+    def rest_prefix(self, params, ptypes):
+        """Statements that observe a rest parameter: its separator and its keywords."""
+        if params[1] is None:
+            return ()
+        out = []
+        R = ("var", "rest")
+        if self.rng.random() < 0.7:
+            out.append(("debug", ("call", "list-separator", (R,), (), None)))
+            self.features.add("list-separator($rest)")
+        if ptypes.get("__kw__"):
+            out.append(("debug", ("call", "keywords", (R,), (), None)))
+            self.features.add("keywords()")
+        if self.rng.random() < 0.5:
+            out.append(("debug", R))
+        return tuple(out)
 
     def stmt(self, sc, depth, ctx):
         """ctx: dict(in_rule, in_fn, in_mixin, ret, top_ctl) -> list of statements or None."""
@@ -854,7 +883,7 @@ class Gen:
             params, ptypes, inner = self.params(sc, d)
             ret = r.choice(["num", "num", "str", "bool"])
             c2 = dict(in_rule=False, in_fn=True, in_mixin=False, ret=ret, in_callable_or_ctl=True)
-            body = self.block(inner, min(depth - 1, 2), c2, 0, 3)
+            body = self.rest_prefix(params, ptypes) + self.block(inner, min(depth - 1, 2), c2, 0, 3)
             body = body + (("ret", self.expr(inner, ret, d)),)
             sc.fns[name] = (params, ret, False, ptypes)
             return [("func", name, params, body)]
@@ -870,7 +899,7 @@ class Gen:
             if not needs_rule and r.random() < 0.5:
                 needs_rule = True
                 c2["in_rule"] = True
-            body = self.block(inner, min(depth - 1, 2), c2, 1, 3)
+            body = self.rest_prefix(params, ptypes) + self.block(inner, min(depth - 1, 2), c2, 1, 3)
             if has_content and not any(s[0] == "content" for s in body):
                 body = body + (self.content_stmt(inner, c2, d),)
             sc.mixins[name] = (params, needs_rule, has_content, carity, ptypes)
@@ -969,7 +998,7 @@ class Gen:
 def has_user_call(e):
     if not isinstance(e, tuple):
         return False
-    if e and e[0] == "call" and e[1] not in ("length", "nth", "map-get", "type-of"):
+    if e and e[0] == "call" and e[1] not in ("length", "nth", "map-get", "type-of", "list-separator", "keywords"):
         return True
     return any(has_user_call(x) for x in e if isinstance(x, tuple))
 
